@@ -127,3 +127,53 @@ def phase(wd, info, max_events=4000):
     if self_ok is False:
         raise Inconclusive("StoreTrace accepted a corrupted trace (binding self-test failed)")
     return drift
+
+
+def binary_phase(wd, info, seed, tier):
+    """Traces recorded from the REAL PROGRAM: the dirk binary built with the verif tag (the same program plus the observation
+    points) serves concurrent conflicting requests over TLS; its storage steps, ordered by the tracer's own sequence numbers with the
+    goroutine as actor, must satisfy StoreTrace (AtomicRMW, ReadLatest, Monotone).  DRIFT only."""
+    import random
+    rnd = random.Random(seed * 31 + 5)
+    exe = build_dirk(verif=True)
+    tdir = os.path.join(wd, "bintraces")
+    os.makedirs(tdir, exist_ok=True)
+    scs = []
+    for i in range(4 if tier == "quick" else 24):
+        ops = []
+        for rnd_ in range(6):
+            e = rnd_ + 1
+            group = []
+            for j in range(8):
+                k = rnd.randrange(3)
+                kind = rnd.choice(["att", "att", "prop", "atts"])
+                if kind == "prop":
+                    group.append(dict(id="g%dr%d" % (rnd_, j), kind="prop", ents=[dict(k=k, slot=e, root="R%d" % j)]))
+                elif kind == "atts":
+                    group.append(dict(id="g%dr%d" % (rnd_, j), kind="atts", ents=[dict(k=k, s=e - 1, t=e, root="R%d" % j), dict(k=(k + 1) % 3, s=e - 1, t=e, root="R%d" % j)]))
+                else:
+                    group.append(dict(id="g%dr%d" % (rnd_, j), kind="att", ents=[dict(k=k, s=e - 1, t=e, root="R%d" % j)], by=("name", "key")[j % 2]))
+            ops.append(dict(id="par%d" % rnd_, kind="par", ops=group))
+        scs.append(dict(id="bintrace%d" % i, world=dict(nkeys=3), conc=[str(v) for v in range(16)], ops=ops))
+    events, rc, err = run_driver(scs, wd, tag="bintrace", timeout=600, dirk=exe, env=dict(VERIF_BIN_TRACE_DIR=tdir))
+    if rc != 0:
+        raise Inconclusive("trace recording from the verif-tagged dirk binary failed: %s %s" % (rc, err[-300:]))
+    lines, n = [], 0
+    for sc in scs:
+        f = os.path.join(tdir, sc["id"] + ".storetrace.ndjson")
+        if not os.path.exists(f):
+            raise Inconclusive("the verif-tagged dirk binary wrote no trace for %s" % sc["id"])
+        lines.append(dict(ev="Begin", test="binary." + sc["id"], rc=0))
+        n += project(f, lines, {})
+    if n < 100:
+        raise Inconclusive("the verif-tagged dirk binary recorded only %d storage events" % n)
+    r = validate(lines, wd, name="StoreTraceBinary")
+    drift = []
+    if not r.ok:
+        import re
+        m = re.findall(r"/\\ l = (\d+)", r.out)
+        pos = int(m[-1]) if m else 0
+        drift.append("StoreTrace (real binary): %s near line %d: %s" % (r.violated or r.error, pos, lines[max(0, pos - 3):pos]))
+    signed = sum(1 for e in events if e["ev"] == "Release")
+    info["real_binary_traces"] = dict(scenarios=len(scs), concurrent_groups=6 * len(scs), storage_events=n, signatures=signed, accepted=r.ok, states=r.distinct)
+    return drift
